@@ -65,7 +65,8 @@ func checkC08(e *Env) {
 				}
 				first[0] = i
 				ent := entropyFromIndices(16, first, r.Intn(128))
-				emit(&Item{Op: plan.Op{Fn: "enc", L: int64(lang), E: hx(ent)}, Exp: c08exp{kind: "first", lang: lang, idx: i, ent: ent}})
+				// (from a buffer the caller recycles: new content, same backing array)
+				emit(&Item{Op: plan.Op{Fn: "enc", L: int64(lang), E: hx(ent), Arena: true}, Exp: c08exp{kind: "first", lang: lang, idx: i, ent: ent}})
 				long := make([]int, 23)
 				for k := range long {
 					long[k] = r.Intn(2048)
@@ -455,7 +456,7 @@ func checkC08(e *Env) {
 		"evaluations":                       stats.Ops,
 		"distinct_nontrivial":               dist.Len(),
 		"calls_repeated_under_concurrency":  concCalls,
-		"rule":                              "finite domain enumerated completely: for each of the 10 languages and each index 0..2047, the word the API emits at the first position of a 12-word sentence and at the last-but-one position of a 24-word sentence is compared byte-for-byte with the golden list; the 2048 emitted words per language are checked for distinctness, non-emptiness, absence of Unicode white space and NFKD stability (CPython); for each word the 24-word sentence made of that word alone plus its checksum word must be accepted (a rejection shared by all ten languages is about the entropy, not the word), four 24-word reference sentences containing it must be accepted (a word is blamed when at least three of the four fail) and the same sentences with the word replaced by its list neighbour must get the reference decoder's verdict; per language the enumeration is repeated in a process that first went through 120 failed validations (typo'd tokens resembling list words); the source files under internal/wordlist are parsed and compared literal by literal; non-trivial = every (language, index); distinct = (language, index) pairs observed through the API",
+		"rule":                              "finite domain enumerated completely: for each of the 10 languages and each index 0..2047, the word the API emits at the first position of a 12-word sentence (the entropy passed in a buffer the caller recycles) and at the last-but-one position of a 24-word sentence is compared byte-for-byte with the golden list; the 2048 emitted words per language are checked for distinctness, non-emptiness, absence of Unicode white space and NFKD stability (CPython); for each word the 24-word sentence made of that word alone plus its checksum word must be accepted (a rejection shared by all ten languages is about the entropy, not the word), four 24-word reference sentences containing it must be accepted (a word is blamed when at least three of the four fail) and the same sentences with the word replaced by its list neighbour must get the reference decoder's verdict; per language the enumeration is repeated in a process that first went through 120 failed validations (typo'd tokens resembling list words); the source files under internal/wordlist are parsed and compared literal by literal; non-trivial = every (language, index); distinct = (language, index) pairs observed through the API",
 		"samples":                           smp.List(),
 		"exhaustive":                        true,
 		"list_entries_observed_through_api": complete,
